@@ -338,6 +338,26 @@ pub fn main(args: &[String]) -> i32 {
             }
         }
     }
+    // the quadratic-residue test (Legendre symbol) of the fields that export it: 0 for zero, 1 for squares, -1 otherwise
+    macro_rules! leg {
+        ($name:expr, $t:ty) => {
+            if all || which == $name {
+                use midnight_curves::ff_ext::Legendre;
+                let mut log = Log { out: &mut out, field: $name };
+                let p = <$t as CircuitField>::modulus();
+                for a in operands(&p).iter() {
+                    let x: $t = of_big(a);
+                    log.op("legendre", vec![json!(nat_of_big(a))], || json!(x.legendre()));
+                    log.op("qr_flags", vec![json!(nat_of_big(a))], || {
+                        json!({"residue": bool::from(x.ct_quadratic_residue()), "non_residue": bool::from(x.ct_quadratic_non_residue())})
+                    });
+                }
+            }
+        };
+    }
+    leg!("bls_fq", bls12_381::Fq);
+    leg!("bls_fp", bls12_381::Fp);
+    leg!("c25519_fp", curve25519::Fp);
     cf!("secp_fp", k256_mod::Fp, false, None, None);
     cf!("secp_fq", k256_mod::Fq, false, None, None);
     cf!("c25519_fp", curve25519::Fp, true, Some(&uni_c25519), Some(<curve25519::Fp as WithSmallOrderMulGroup<3>>::ZETA));
